@@ -25,8 +25,8 @@ func init() {
 	register(&core.Rule{ID: "C19.2", Prop: "C19", MinSites: 6,
 		Desc: "EventLoop.Register/Enroll/Execute: isShutdown() ↦ ErrEngineInShutdown first, nil argument ↦ documented error before use",
 		Run: runC19_2})
-	register(&core.Rule{ID: "C19.3", Prop: "C19", MinSites: 2,
-		Desc: "Engine.Stop returns nil only on the isShutdown() edge; the ctx.Done() arm returns ctx.Err()",
+	register(&core.Rule{ID: "C19.3", Prop: "C19", MinSites: 4,
+		Desc: "Engine.Stop and the package-level Stop return nil only on the isShutdown() edge; the ctx.Done() arm returns ctx.Err()",
 		Run: runC19_3})
 	register(&core.Rule{ID: "C19.5", Prop: "C19", MinSites: 2,
 		Desc: "every function that submits a register task and waits for its completion is reached only behind an isShutdown()==false test (in the function itself or in each of its in-package callers): on a stopped engine the task would never run and the call never return",
@@ -130,7 +130,14 @@ func runC19_1(c *core.Ctx) {
 			}
 		}
 	}
-	okk := len(order) >= 2 && order[0] == empty && order[1] == inShut
+	// (which verdict is decided first is checked on the edges below: ErrEngineInShutdown needs the
+	// non-empty fact; here only that both documented errors are still produced)
+	hasEmpty, hasDown := false, false
+	for _, o := range order {
+		hasEmpty = hasEmpty || o == empty
+		hasDown = hasDown || o == inShut
+	}
+	okk := hasEmpty && hasDown
 	c.Check(okk, vf.Name, "empty before in-shutdown", vf.Decl.Pos(), "ErrEmptyEngine is decided before ErrEngineInShutdown", "Validate no longer reports ErrEmptyEngine (nil or listener-less engine) before testing for shutdown, or no longer returns the two documented errors")
 	// the emptiness test must precede any e.eng.<method> call
 	const fNonNil = 1
@@ -142,6 +149,74 @@ func runC19_1(c *core.Ctx) {
 			}
 		}
 		return in
+	}
+	// each verdict is returned on the edge that justifies it
+	{
+		const (
+			fEmpty = 1 << iota
+			fNonEmpty
+			fDown
+			fUp
+		)
+		listenersF := c.P.Field("", "engine", "listeners")
+		isShutdownFn := c.P.Func("", "engine.isShutdown")
+		vp := &flow.Problem{Must: true}
+		vp.Edge = func(e *flow.Edge, in uint64) uint64 {
+			if e.Cond == nil || e.Tag != nil {
+				return in
+			}
+			if call, ok := ast.Unparen(e.Cond).(*ast.CallExpr); ok && isShutdownFn != nil && flow.IsCall(vf.Info, call, isShutdownFn) {
+				if e.Sense {
+					return in | fDown
+				}
+				return in | fUp
+			}
+			x, y, op, ok := flow.Cmp(e.Cond)
+			if !ok || (op != token.EQL && op != token.NEQ) {
+				return in
+			}
+			equal := (op == token.EQL) == e.Sense
+			if flow.IsNil(vf.Info, y) && flow.FieldOf(vf.Info, x) == engF && equal {
+				return in | fEmpty
+			}
+			if lc, ok := ast.Unparen(x).(*ast.CallExpr); ok && len(lc.Args) == 1 {
+				if id, ok := lc.Fun.(*ast.Ident); ok && id.Name == "len" && listenersF != nil && flow.FieldOf(vf.Info, lc.Args[0]) == listenersF {
+					if tv, ok := vf.Info.Types[y]; ok && tv.Value != nil && tv.Value.String() == "0" {
+						if equal {
+							return in | fEmpty
+						}
+						return in | fNonEmpty
+					}
+				}
+			}
+			return in
+		}
+		vs := vf.Graph().Solve(vp)
+		k := 0
+		vs.AtExit(func(b *flow.Block, facts uint64) {
+			k++
+			if len(b.Return.Results) != 1 {
+				return
+			}
+			res := b.Return.Results[0]
+			var got types.Object
+			if id := sentinelIdent(res); id != nil {
+				got = vf.Info.Uses[id]
+			}
+			switch {
+			case got == empty:
+				c.Check(facts&fEmpty != 0, vf.Name, "ErrEmptyEngine only for an empty handle", b.Return.Pos(), "returned on the nil / no-listener edge",
+					"Validate reports ErrEmptyEngine on a path where the handle is not known to be nil or listener-less (a running engine would be refused)")
+			case got == inShut:
+				c.Check(facts&fDown != 0 && facts&fNonEmpty != 0, vf.Name, "ErrEngineInShutdown only when shut down", b.Return.Pos(), "returned on the isShutdown() edge, after the handle was found non-empty",
+					"Validate reports ErrEngineInShutdown although isShutdown() is not established on this path (a running engine refuses every control call, a stopped one accepts them), or before the handle was found to have listeners (a never-started handle must report ErrEmptyEngine)")
+			case flow.IsNil(vf.Info, res):
+				c.Check(facts&fNonEmpty != 0 && facts&fUp != 0, vf.Name, "nil only for a started, running engine", b.Return.Pos(), "listeners present and not shut down",
+					"Validate returns nil on a path where the engine is not known to have listeners and to be running: a never-started or stopped handle is accepted, and the callers go on to use its loops")
+			default:
+				c.Violate(vf.Name, "verdict #"+itoa(k), b.Return.Pos(), "Validate returns something other than nil, ErrEmptyEngine or ErrEngineInShutdown")
+			}
+		})
 	}
 	sol := vf.Graph().Solve(p)
 	sol.Walk(func(b *flow.Block, i int, n ast.Node, before uint64) {
@@ -253,7 +328,13 @@ func runC19_2(c *core.Ctx) {
 }
 
 func runC19_3(c *core.Ctx) {
-	f := getFn(c, "", "Engine.Stop")
+	for _, name := range []string{"Engine.Stop", "Stop"} {
+		runC19_3on(c, name)
+	}
+}
+
+func runC19_3on(c *core.Ctx, name string) {
+	f := getFn(c, "", name)
 	isShutdown := c.P.Func("", "engine.isShutdown")
 	if f == nil || !c.Need("engine.isShutdown", isShutdown) {
 		return
